@@ -885,6 +885,14 @@ def rich_regex(r, blocked, depth=3):
     def build(d):
         if d <= 0 or r.random() < 0.25:
             return leaf()
+        if d >= 2 and r.random() < 0.2:
+            # an optional / repeated group around something that is already nullable: (x*)?  (x?)?  (a?|b*)  (x?){1,2}
+            inner = RNode(r.choice(("star", "opt")), build(d - 2))
+            if r.random() < 0.3:
+                inner = RNode("alt", inner, RNode(r.choice(("star", "opt")), leaf()))
+            if r.random() < 0.3:
+                return RNode("rep", inner, n=1, m=r.choice((2, 3)))
+            return RNode(r.choice(("opt", "opt", "star")), inner)
         k = r.choice(("cat", "cat", "alt", "opt", "opt", "star", "plus", "rep"))
         if k == "cat":
             return RNode("cat", *[build(d - 1) for _ in range(r.choice((2, 2, 3)))])
@@ -930,7 +938,7 @@ def generate_lifecycle(rng, noindex=False):
     decl = []
     strs = []
     for i in range(r.choice((1, 2, 2))):
-        size = r.choice((3, 4, 6, 9))
+        size = r.choice((3, 4, 6, 9, 12, 16))
         unterm = r.random() < 0.2
         cap = size if unterm else size - 1
         d = "out %sstr[%d] s%d" % ("unterminated " if unterm else "", size, i)
@@ -975,7 +983,7 @@ def generate_lifecycle(rng, noindex=False):
             sample += bytes([a]) * r.choice((1, s["cap"], s["cap"] + 2)) + b"|"
         for _ in range(r.choice((1, 2))):
             use = r.choice(("append", "append", "appc", "assign", "len" if noindex else "index", "len", "hook",
-                            "hook" if noindex else "indexvar", "highbyte"))
+                            "hook" if noindex else "indexvar", "highbyte", "assignread"))
             if use == "append":
                 lo = r.choice((97, 103, 109))
                 body.append("%s += /[%s-%s]+/;" % (name, chr(lo), chr(lo + 5)))
@@ -987,6 +995,12 @@ def generate_lifecycle(rng, noindex=False):
                 body.append("%s = %s;" % (name, esc_str([r.choice(LETTERS) for _ in range(r.randrange(0, s["cap"] + 1))])))
             elif use == "index":
                 body.append("n1 = [%s[%d] + %s.len];" % (name, r.choice((0, 1, s["size"] - 1)), name))
+            elif use == "assignread":
+                # a constant of known length, then reads at positions inside that length (also beyond index 7)
+                L = r.randrange(1, s["cap"] + 1)
+                body.append("%s = %s;" % (name, esc_str([r.choice(LETTERS) for _ in range(L)])))
+                body.append("n0 = [%s[%d] + %s[%d]];" % (name, L - 1, name, r.randrange(0, L)))
+                body.append("if %s[%d] > 100 { h1(); }" % (name, L - 1))
             elif use == "highbyte":
                 # store a byte >= 0x80 and read it back through an index that is inside the current length:
                 # the value must not depend on whether strings are char or uint8_t
